@@ -698,7 +698,7 @@ def register(reg):
         def on_yield(self, c, v, node):
             evs = c.since_cut({"H2.stream_event", "yield", "h2.acknowledge_received_data", "call:" + H2 + "._write_outgoing_data"})
             names = [e.name for e in evs]
-            goals = [("credit_returned_and_flushed_before_the_data_is_handed_over", ("C13",), names == ["H2.stream_event", "h2.acknowledge_received_data", "call:" + H2 + "._write_outgoing_data", "yield"])]
+            goals = [("credit_returned_and_flushed_before_the_data_is_handed_over", ("C13", "C12"), names == ["H2.stream_event", "h2.acknowledge_received_data", "call:" + H2 + "._write_outgoing_data", "yield"])]
             if names and names[0] == "H2.stream_event":
                 e = evs[0].data["result"]
                 goals.append(("yields_only_data_events", ("C02",), typ(e.t) == cid("h2.events.DataReceived")))
@@ -888,6 +888,14 @@ def register(reg):
         def on_back_edge(self, c, ordinal):
             names = [e.name for e in c.since_cut({"iter.next", "call:" + H2 + "._send_stream_data"})]
             return [("every_chunk_is_sent_once_in_order", ("C03",), names == ["iter.next", "call:" + H2 + "._send_stream_data"])]
+
+        def exc_checks(self, c, exc):
+            # C03 ("exactly the caller's body bytes"): END_STREAM tells the server the body is complete - it may be sent only
+            # after the body iterator was exhausted normally, never on the way out of a failed or cancelled upload (seed C03-w5-2)
+            ends = [e for e in c.trace if e.name == "call:" + H2 + "._send_end_stream"]
+            # (an exception that comes out of the one, regular _send_end_stream call itself is that call's failure)
+            mine = len(ends) == 1 and "result" not in ends[0].data
+            return [("a_failed_upload_is_never_presented_as_complete", ("C03", "C13"), len(ends) == 0 or mine)]
 
         def checks(self, c):
             req = c.args["request"]
@@ -1289,6 +1297,10 @@ def register(reg):
         def on_back_edge(self, c, ordinal):
             evs = [e.name for e in c.since_cut({"iter.item", "yield"})]
             return [("every_inner_chunk_is_yielded_once", ("C02",), evs == ["iter.item", "yield"])]
+
+        def checks(self, c):
+            ended = [e for e in c.trace if e.name == "iter.exhausted"]
+            return [("ends_normally_only_after_the_connections_body_generator_ended", ("C02", "C01"), len(ended) == 1)]
 
         def callsite(self, c, ev):
             if ev.name == "call:" + H2 + "._receive_response_body":
